@@ -27,6 +27,15 @@ theorem sec_facts (g : Frag) (h : securityChecks g = true) :
   · rw [hm] at h1; cases h1
   · have := of_decide_eq_false h1; omega
 
+theorem securityChecks_of (g : Frag) (h1 : g.mf = true → 8 ≤ g.fragLength) (h2 : g.off ≤ 8189)
+    (h3 : g.byteOff + g.length ≤ 65535) : securityChecks g = true := by
+  unfold securityChecks
+  simp [ip4MinimumFragmentSize, ip4MaximumFragmentOffset, ip4MaximumSize]
+  refine ⟨?_, h2, h3⟩
+  cases hm : g.mf with
+  | false => exact Or.inl rfl
+  | true => have := h1 hm; exact Or.inr (decide_eq_false (by omega))
+
 /-- The check added to build by frag-5, in Nat terms. -/
 theorem consistent_facts (g : Frag) (hlen : g.length ≤ 65535)
     (hc : ¬ ((g.length : Int) - (g.ihl : Int) * 4 ≠ (g.payload.length : Int))) :
